@@ -145,7 +145,15 @@ class Ctx:
                 fh.write(body)
             lines.append('VIOLATION property=%s replay=%s%s' % (self.pid, path, suffix))
         if real:
-            for v in real[:5]:
+            # at most five replays, different kinds of violation first (one per distinct beginning of the description)
+            firsts, seen_kinds = [], set()
+            for v in real:
+                k = str(v['replay'].get('what', ''))[:32]
+                if k not in seen_kinds:
+                    seen_kinds.add(k)
+                    firsts.append(v)
+            chosen = firsts[:5] + [v for v in real if v not in firsts][:max(0, 5 - len(firsts))]
+            for v in chosen[:5]:
                 write(v, '')
         elif broken:
             # the tie or a proof obligation broke and the search found no failing input
